@@ -62,7 +62,7 @@ class StnHist(Engine):
     nruns = {"quick": 20000, "thorough": 3000000}
     budgets = {"quick": 30.0, "thorough": 540.0}
     rule = (
-        "script = 5-40 operations add(x, y, b) / insert_interval / copy_stn on up to 5 replicas over 2-5 events (profile cascade: a layered precedence network over 8-14 events inserted sink side first, then makespan upper bounds; events are strings, ints, tuples or STNPlanNode objects with twin action instances), bounds "
+        "script = 5-40 operations add(x, y, b) / insert_interval / copy_stn on up to 5 replicas over 2-5 events (profile cascade: a layered precedence network over 8-14 events inserted sink side first, then makespan upper bounds; profile longlist: one event whose list of outgoing constraints grows to 10-40 entries by repeated tightenings, 1-2 copies sharing the list cells, the sides tightened alternately, loose bounds looked up far down the list, the event lowered; events are strings, ints, tuples or STNPlanNode objects with twin action instances), bounds "
         "small integers or rationals with denominator <= 3 (epsilon 0), biased toward tightening an existing edge, closing a "
         "cycle of weight -1/0/+1, and operating on a copy right after copying. After EVERY operation, on EVERY replica: "
         "check_stn == reference consistency, and while consistent get_stn_model(e) == least non-negative solution for "
